@@ -52,7 +52,7 @@ func tiers(tier string) tierCfg {
 			kvCfgs: []string{"kv.quick", "kv.thorough"}, kvCover: 1, tourMulti: 2<<20 + 4096,
 			fileCfg: "file.thorough", fileMulti: 8 << 20, fileReps: 8,
 			zerosFor: map[string]bool{"Bm1": true, "B": true, "Bp1": true, "Bp4": true, "BAlign": true, "2B": true, "2Bp1": true},
-			concCfg: "conc.thorough",
+			concCfg:  "conc.thorough",
 			diskRounds: []roundCfg{
 				{Stack: "disk", Procs: 4, Ops: 6, Ids: []string{"a"}, BigEvery: 3},
 				{Stack: "disk", Procs: 6, Ops: 6, Ids: []string{"a", "b", "c"}, BigEvery: 4},
@@ -71,7 +71,7 @@ func tiers(tier string) tierCfg {
 		kvCfgs: []string{"kv.quick"}, kvCover: 1, tourMulti: 2<<20 + 4096,
 		fileCfg: "file.quick", fileMulti: 2 << 20, fileReps: 2,
 		zerosFor: map[string]bool{"B": true},
-		concCfg: "conc.quick",
+		concCfg:  "conc.quick",
 		diskRounds: []roundCfg{
 			{Stack: "disk", Procs: 4, Ops: 6, Ids: []string{"a"}, BigEvery: 3},
 			{Stack: "disk", Procs: 6, Ops: 6, Ids: []string{"a", "b", "c"}, BigEvery: 4},
